@@ -144,6 +144,7 @@ def run(ctx, build):
         lay = gen.Layout([cfg['N']], [0], [cfg['M']], [0])
         with h5py.File(src, 'w') as f:
             main = gen.write_layout(f, lay)
+            main.parent.create_group('not_a_results_group')
             if cfg['premask'] is not None and not cfg['separate']:
                 procutil.seed_partial_group(main, cfg['premask'])
                 # seed results carry the final values for completed positions (a previous, properly checkpointed run)
@@ -154,6 +155,7 @@ def run(ctx, build):
         if cfg['separate']:
             with h5py.File(tgt, 'w') as ft:
                 ft.attrs['made_by'] = 'harness'
+                ft.create_group('not_a_results_group')
         for pth in (src, tgt):
             if os.path.exists(pth):
                 shutil.copyfile(pth, pth + '.durable')
@@ -189,6 +191,9 @@ def run(ctx, build):
                     info['start_state'] = read_group_state(g, cfg['N'], cfg['M'])
                     info['group'] = g.name
                 p._max_pos_per_read = maxpos
+                if crash_at is None:
+                    # before resuming, the user points the process at a group that is not resumable: refused, and without effect
+                    info['refusal_problem'] = procutil.refused_choice(p, (ft if ft is not None else main.parent)['not_a_results_group'])
                 res = p.compute()
                 info['returned'] = res.name
         except Crash as e:
@@ -264,6 +269,8 @@ def run(ctx, build):
                 if k.startswith('Raw_Data-') and isinstance(parent[k], h5py.Group):
                     before[k] = read_group_state(parent[k], cfg['N'], cfg['M'])
         info = attempt(cfg, src, tgt, None, rng.randint(1, cfg['N'] + 1), log2)
+        if info.get('refusal_problem'):
+            violate(cls, 'unsuitable_group_not_refused', '%s; %s' % (info['refusal_problem'], desc), desc)
         if info['exception']:
             violate(cls, 'reconstruction_or_resume_raises', '%s; %s' % (info['exception'], desc), desc)
             return
